@@ -2129,8 +2129,38 @@ def run_blob_sched(P, tmp, schedule=None):
             c.close()
             return out
 
+        def second_packer():
+            outs = []
+            for a in range(int(P.get('second', 0))):
+                note('q-attempt-start')
+                try:
+                    db.pack(t)
+                    o = 'ok'
+                except FileStorageError as e:
+                    o = 'refused' if 'Already packing' in str(e) else 'raised:FileStorageError:%s' % e
+                except Exception as e:          # noqa: B902
+                    o = 'raised:%s:%s' % (type(e).__name__, e)
+                note('q-attempt-end ' + o.split(':')[0])
+                outs.append(o)
+            note('attempts-done')
+            return outs
+
         rec.events.clear()
-        policy = policy_blob_dir_race(fs._commit_lock.role) if P.get('directed') else None
+        policy = None
+        if P.get('directed') == 1:
+            policy = policy_blob_dir_race(fs._commit_lock.role)
+        elif P.get('directed') == 2:
+            # the first pack is stopped inside its blob phase (after the swap, at its first file-system call
+            # below the blob directory or its .old sibling); the second packer makes all its attempts then
+            seen = dict(swap=False)
+
+            def in_blob_phase(th, kind, label):
+                if th == 'p' and kind == 'io' and label == 'rename Data.fs.pack':
+                    seen['swap'] = True
+                return seen['swap'] and th == 'p' and kind == 'io' and ' blobs' in label
+            policy = staged_policy([
+                ('p', in_blob_phase, None),
+                ('q', lambda th, kind, label: th == 'q' and kind == 'note' and label == 'attempts-done', None)])
         s = DirectedScheduler(seed=P['seed'], schedule=schedule, stickiness=P.get('stick', 0.5), policy=policy)
         note.s = s
         hook_vfs(rec, note)
@@ -2139,6 +2169,8 @@ def run_blob_sched(P, tmp, schedule=None):
             s.spawn('c%d' % k, committer(k))
         if P.get('reads', 3):
             s.spawn('r', reader)
+        if P.get('second'):
+            s.spawn('q', second_packer)
         res = s.run(timeout=60)
         rec.on_event = None
         note.s = None
@@ -2160,15 +2192,37 @@ def run_blob_sched(P, tmp, schedule=None):
                     if o.startswith('raised') or o == 'missing':
                         pr.append(('commit-error:%s' % (o.split(':')[1] if ':' in o else o),
                                    'the commit of a blob failed while a pack was running: ' + o))
-            if res['results'].get('p') != 'ok':
-                pr.append(('pack-error:%s' % str(res['results'].get('p')).split(':')[1 if res['results'].get('p') else 0],
-                           str(res['results'].get('p'))))
+            pres = res['results'].get('p')
+            if pres != 'ok' and not (P.get('second') and pres == 'raised:FileStorageError:Already packing' and
+                                     'ok' in (res['results'].get('q') or [])):
+                # (with a second packer thread the first one may be the one that is refused)
+                pr.append(('pack-error:%s' % str(pres).split(':')[1 if pres else 0], str(pres)))
+            # a pack attempt made entirely while the first pack is between creating Data.fs.pack and its last
+            # file-system call in the blob phase (flag certainly set) must be refused
+            evs = res['events']
+            w0 = [i for i, e in enumerate(evs) if e[0] == 'p' and e[1] == 'io' and e[2] == 'create Data.fs.pack']
+            w1 = [i for i, e in enumerate(evs) if e[0] == 'p' and e[1] == 'io' and ' blobs' in e[2]]
+            a0 = None
+            for i, (th, kind, label) in enumerate(evs):
+                if th == 'q' and kind == 'note' and label == 'q-attempt-start':
+                    a0 = i
+                elif th == 'q' and kind == 'note' and label.startswith('q-attempt-end') and a0 is not None:
+                    if w0 and w1 and w0[0] < a0 and i < w1[-1] and label != 'q-attempt-end refused':
+                        pr.append(('pack-admitted-during-pack', 'a second pack() arriving while the first pack was '
+                                   'still running (blob phase included) ended %r instead of being refused'
+                                   % label[14:]))
+                    a0 = None
+            for o in (res['results'].get('q') or []):
+                if o.startswith('raised'):
+                    pr.append(('pack-error:%s' % o.split(':')[1], 'second packer: ' + o))
             for o in (res['results'].get('r') or []):
                 if o is not True:
                     pr.append(('reader-error:%s' % (o.split(':')[1] if isinstance(o, str) else 'wrong-data'),
                                'a reader of committed blobs got %r' % (o,)))
             try:
                 pr += _blob_verify(fs, db, returned)
+                if P.get('ctor') != 'blobstorage' and not pr:
+                    pr += blob_files_vs_records(fs, os.path.join(root, 'blobs'))
                 db.close()
                 fs2, db2 = open_blob_storage(root, P)
                 try:
@@ -2183,6 +2237,34 @@ def run_blob_sched(P, tmp, schedule=None):
             pass
     obs['problems'] = pr
     return obs
+
+
+def blob_files_vs_records(fs, bdir):
+    """after all packs returned: the blob directory holds exactly the files of the blob revisions in Data.fs"""
+    pr = []
+    recs = set()
+    for t in fs.iterator():
+        for x in t:
+            if x.data and fs.is_blob_record(x.data):
+                recs.add((x.oid, x.tid))
+    files = set()
+    for dp, dns, fns in os.walk(bdir):
+        if os.path.basename(dp) == 'tmp':
+            dns[:] = []
+            continue
+        for fn in fns:
+            if fn.endswith('.blob'):
+                try:
+                    files.add((fs.fshelper.getOIDForPath(dp), fs.fshelper.splitBlobFilename(os.path.join(dp, fn))[1]))
+                except Exception:           # noqa: B902
+                    files.add((dp, fn))
+    for oid, tid in sorted(recs - files):
+        pr.append(('blob-file-removed', 'the blob file of revision %s of object %s, still in Data.fs, is gone'
+                   % (tid.hex()[-6:], oid.hex()[-4:])))
+    for x in sorted(files - recs, key=repr):
+        pr.append(('garbage-blob-file-left', 'after the pack(s) returned the blob directory still holds the file of '
+                   'a packed-away revision: %r' % (tuple(y.hex()[-6:] if isinstance(y, bytes) else y for y in x),)))
+    return pr
 
 
 def _blob_verify(fs, db, returned):
@@ -2234,11 +2316,19 @@ def run_blob_case(ck, case):
 
 
 def gen_blob_params(rng, i):
+    P = _gen_blob_params(rng, i)
+    if P['second']:
+        P['directed'] = 2 if i % 2 else 0   # second pack() arriving inside the first pack's blob phase / random
+    return P
+
+
+def _gen_blob_params(rng, i):
     return dict(seed=rng.randrange(10 ** 9), stick=rng.choice([0.0, 0.3, 0.6, 0.9]), committers=rng.choice([1, 2]),
                 commits=rng.choice([1, 2, 3]), reads=rng.choice([0, 2]), keep_old=rng.choice([True, False]),
                 keeper=int(i % 4 == 3), rewrite=rng.choice([0, 1]), directed=int(i % 2 == 0),
                 layout=['bushy', 'lawn'][i % 3 == 1], ctor=['direct', 'config', 'direct', 'blobstorage'][i % 4],
-                pack_gc=bool(i % 5 != 4))
+                pack_gc=bool(i % 5 != 4), second=[0, 2, 0, 0, 1][i % 5] if i % 4 != 3 else 0)
+    
 
 
 # ------------------------------------------------------------------------------------------------
